@@ -474,7 +474,7 @@ pub fn supervisor_main(info: &CheckInfo, total_runs: u64, tier: Tier, verif_seed
                     }
                 };
                 let timed_out = stderr.contains("SUPERVISOR-TIMEOUT");
-                if let Some(l) = stderr.lines().find(|l| l.starts_with("HARNESS-PANIC")) {
+                if let Some(l) = stderr.lines().find(|l| l.starts_with("HARNESS-PANIC") || l.starts_with("HARNESS-ERROR")) {
                     harness_errors.push(format!("run {}: {}", i, l));
                     done_runs += 1;
                     let next = i + slots[s].stride;
